@@ -69,6 +69,9 @@ static thrd_ret_t THREAD_CALL_CONV parallel_thread_run(void *rid_arg)
 		mpi_remote_msg_handle();
 
 		unsigned i = 64;
+#ifdef ROOT_SIM_CORE_VERIF
+		i = rsv_batch_size(i); // schedule knob: how many messages are attempted between two steps of the GVT algorithm
+#endif
 		while(i--)
 			process_msg();
 
